@@ -62,7 +62,7 @@ static void call_any(int shape, const Values &v, const char *fmt, Sink &&sink)
     case EXTRA_BASE + 6: sink(fmt, v.i, d1, v.cstr, v.c32, v.b); return;
     case EXTRA_BASE + 7: { static const std::filesystem::path shortp("a/b.txt"); sink(fmt, shortp); return; }
     case EXTRA_BASE + 8: { static const std::filesystem::path longp("/a/rather/long/path/that/does/not/fit/a/small/buffer/caf\xC3\xA9.txt"); sink(fmt, v.i, longp, v.cstr); return; }
-    default: call_shape(shape, v, fmt, nullptr, sink); return;
+    default: call_shape_x(shape, v, fmt, nullptr, sink); return;
     }
 }
 
@@ -214,6 +214,7 @@ struct ExactViews {
 };
 
 static bool g_sinks_sampled = false;
+static int g_selector_rotation = 0;
 static void format_case(const S &fmt, int shape, const Values &v, bool bounded = true)
 {
     if (bounded && resource_heavy(fmt)) { vrt::count("skipped.resource_heavy_width"); return; }
@@ -221,7 +222,8 @@ static void format_case(const S &fmt, int shape, const Values &v, bool bounded =
     vrt::cur_rewind();
     vrt::cur_printf("shape=%d fmt=%s\n", shape, show(fmt).c_str());
     Result r[4];
-    for (int m = 0; m < 4; ++m) r[m] = run_format(shape, v, f.data(), m == 3 ? -1 : m);
+    // (the order in which the four selectors are tried is rotated by the history phases; the verdicts do not depend on it)
+    for (int q = 0; q < 4; ++q) { const int m = (q + g_selector_rotation) % 4; r[m] = run_format(shape, v, f.data(), m == 3 ? -1 : m); }
     std::string ctx = sfmt("shape=%d fmt=%s (text: %s)", shape, show(fmt).c_str(), vrt::json_escape(fmt.substr(0, 160)).substr(0, 160).c_str());
     if (fmt.size() > 2000) ctx += " [" + scale::brief(fmt) + "]";
     for (int m = 0; m < 4; ++m) {
@@ -255,6 +257,23 @@ static void format_case(const S &fmt, int shape, const Values &v, bool bounded =
     vrt::distinct(vrt::fnv1a(fmt.data(), fmt.size(), static_cast<uint64_t>(shape) + 101));
 }
 
+// one to three random edits (insert, erase, replace, duplicate a piece) with bytes of the specifier alphabet
+static const char INJ[] = {'{', '}', '_', '.', '&', '0', '9', '+', '-', ' ', 'x', 'c', '#', '<', '>', '\t', 'z', '\x80', '\xff', 'E', 'f', 'e', 'b', 'o', 'X', 'd'};
+static void mutate_format(Rng &r, S &fmt)
+{
+    for (int rep = static_cast<int>(1 + r.below(3)); rep-- > 0;) {
+        size_t p = r.below(fmt.size() + 1);
+        switch (r.below(4)) {
+        case 0: fmt.insert(p, 1, r.pick(INJ)); break;
+        case 1: if (p < fmt.size()) fmt.erase(p, 1); break;
+        case 2: if (p < fmt.size()) fmt[p] = r.pick(INJ); break;
+        default: if (p < fmt.size()) fmt.insert(p, fmt.substr(p, 1 + r.below(4))); break;
+        }
+    }
+    // the terminator must stay the only NUL
+    for (auto &c : fmt) if (c == '\0') c = '0';
+}
+
 static const int DIRECTED_SHAPES[] = {0, 1, 2, 5, 9, EXTRA_BASE + 0, EXTRA_BASE + 3, EXTRA_BASE + 7};
 
 static int random_shape(Rng &r)
@@ -277,6 +296,278 @@ static void scale_format_case(const S &fmt, int shape, const Values &v)
     }
     vrt::count("scale.format_strings");
     if (fmt.size() >= 65536) vrt::count("scale.format_strings>=64KiB");
+}
+
+// ---------------------------------------------------------------- "state that survives a call" / "where the data lives"
+// (rt/ref_format.h, sections 5-7): formatters that call back into the library, the caller's stack, format strings behind
+// foreign bytes, buffers rewritten in place, tens of thousands of consecutive calls in one case - all through format_case():
+// outcome class, cross-selector consistency, the sinks, and the sanitizers.  std::bad_function_call or any other exception
+// outside the documented set is a "foreign outcome".
+struct SoakEntry {
+    Values v;
+    Reent x;
+    int shape = 0;
+    S fmt;
+    int mode = 0;
+    size_t slot = 256, align = 0;
+    int depth = 0;
+    unsigned rot = 0;
+};
+static void soak_execute(SoakEntry &e)
+{
+    Placement &pl = placement();
+    pl.mode = e.mode; pl.slot = e.slot; pl.depth = e.depth; pl.rot = e.rot; pl.align = e.align;
+    ReentScope rs(&e.x);
+    format_case(e.fmt, e.shape, e.v);
+}
+// flavour 0: boring (ASCII only, short, well-formed); 1: random (as in cut_and_mutate); 2: interesting
+static std::unique_ptr<SoakEntry> soak_entry(Rng &r, int flavour)
+{
+    std::unique_ptr<SoakEntry> e(new SoakEntry);
+    ReentScope rs(&e->x);
+    if (flavour == 0) {
+        random_values(r, e->v);
+        set_all_texts(e->v, compose(r, r.below(20), BG_ASCII_RANDOM));
+        static const int shapes[] = {0, 1, 2, 3, 5, 45, 32};
+        e->shape = r.pick(shapes);
+        e->fmt = compose(r, 1 + r.below(30), BG_ASCII_RANDOM);
+        if (e->shape != 0 && r.chance(1, 2)) e->fmt += "{}" + compose(r, r.below(8), BG_ASCII_RANDOM);
+    } else if (flavour == 1) {
+        random_values(r, e->v);
+        e->shape = random_shape(r);
+        e->fmt = random_literal(r);
+        for (size_t k = 1 + r.below(3); k-- > 0;) {
+            Field f = random_field(r, true);
+            if (f.width > 60) f.width = static_cast<int>(1 + r.below(60));
+            if (r.chance(1, 3)) f.argref = static_cast<int>(r.below(7));
+            e->fmt += field_text(f);
+            e->fmt += random_literal(r);
+        }
+        if (r.chance(1, 2)) mutate_format(r, e->fmt);
+        if (r.chance(1, 6)) { e->mode = 3; e->align = r.below(16); }
+    } else {
+        ScaleFmt sf;
+        switch (r.below(5)) {
+        case 0: reentrant_case(r, e->v, e->shape, sf); break;
+        case 1: { Placement pl; stack_case(r.below(200), r, e->v, e->shape, sf, pl, false); e->mode = 1; e->slot = pl.slot; e->depth = pl.depth; e->rot = pl.rot; break; }
+        case 2: {   // the only bytes that are not ASCII / the only braces sit in the last 1..7 bytes of a format string of 16 bytes or more
+            random_values(r, e->v);
+            e->shape = random_shape(r);
+            static const char *const tails[] = {"{}", "{{", "}}", "}", "{", "{&1}", "\xC3\xA9", "\xF0\x9F\x98\x80", "{z}", "{_", "{.3}", "\x80"};
+            sf.lit(compose(r, 16 + r.below(300), BG_ASCII_RANDOM));
+            sf.lit(r.pick(tails));
+            if (r.chance(1, 2)) sf.lit(compose(r, r.below(4), BG_ASCII_RANDOM));
+            break;
+        }
+        case 3: {   // the last append takes the output across 256 / 512 bytes
+            random_values(r, e->v);
+            e->shape = 5;
+            const size_t C = r.chance(2, 3) ? 256 : 512, P = 1 + r.below(40), B = C - r.below(P);
+            set_all_texts(e->v, compose(r, P, BG_ASCII_RANDOM));
+            sf.lit(compose(r, B, BG_ASCII_RANDOM)); sf.field(plain_field(r.chance(1, 2) ? 2 : 4));
+            break;
+        }
+        default: {
+            static const int shapes[] = {EXTRA_BASE + 0, EXTRA_BASE + 1, EXTRA_BASE + 2, EXTRA_BASE + 4, EXTRA_BASE + 5, EXTRA_BASE + 8, 8, 12, 14};
+            random_values(r, e->v);
+            e->shape = r.pick(shapes);
+            for (size_t k = 1 + r.below(3); k-- > 0;) { Field f = random_field(r, true); if (f.width > 60) f.width = 7; static const char fl[] = {'f', 'e', 'E', 0}; if (r.chance(1, 2)) f.cls = r.pick(fl); sf.field(f); sf.lit(random_literal(r)); }
+            break;
+        }
+        }
+        e->fmt = sf.text();
+        if (r.chance(1, 5)) mutate_format(r, e->fmt);
+    }
+    return e;
+}
+
+static void history_phases()
+{
+    g_sinks_sampled = false;
+    vrt::note("history phases: (reentrant) argument types whose format_type() calls ST::format / writef / printf itself - two and three of them in one call, trees of depth 2..4 whose nested calls have the "
+              "signature of the running call, nested calls that throw and are caught - with well-formed, cut and mutated format strings; (stack) format string and text arguments in local arrays of "
+              "64 B..8 KiB right above the library's frames, the output outgrowing 256, 512, ... bytes with one append; (same_storage) format strings and arguments of identical size rewritten in place / "
+              "rebuilt at the same address, malformed ones in between; (soak) more than 70000 consecutive calls in one case; (alignment) format strings of 32..200 bytes at every start alignment with "
+              "braces directly in front of them");
+    vrt::require("reentrant.cases", 5000);
+    vrt::require("reentrant.nested_calls_of_recursive_formatters", 50000);
+    vrt::require("reentrant.nested_call_with_the_signature_of_a_running_call", 30000);
+    vrt::require("reentrant.nested_call_with_the_signature_of_two_or_more_running_calls", 10000);
+    vrt::require("reentrant.nested_call_threw_and_was_caught_in_the_formatter", 10000);
+    vrt::require("reentrant.nested_call_through_writef", 5000);
+    vrt::require("reentrant.nested_call_through_printf", 5000);
+    vrt::require("reentrant.values_with_a_tree_of_depth_4", 500);
+    vrt::require("reentrant.cut_at_every_position", 1000);
+    vrt::require("reentrant.mutated", 1000);
+    for (int k = 0; k < N_REENT_SHAPES; ++k) vrt::require(sfmt("reentrant.shape.%d", REENT_SHAPES[k]), 150);
+    vrt::phase("reentrant", vrt::tier_count(6000, 400000), [&](uint64_t i, Rng &r) {
+        PlacementScope ps;
+        g_sinks_sampled = false;
+        g_selector_rotation = static_cast<int>(i % 4);
+        Values v;
+        int shape = 0;
+        ScaleFmt sf;
+        reentrant_case(r, v, shape, sf);
+        S fmt = sf.text();
+        switch (r.below(4)) {
+        case 0: for (size_t k = 0; k <= fmt.size(); ++k) format_case(fmt.substr(0, k), shape, v); vrt::count("reentrant.cut_at_every_position"); break;
+        case 1: mutate_format(r, fmt); format_case(fmt, shape, v); vrt::count("reentrant.mutated"); break;
+        default: format_case(fmt, shape, v); break;
+        }
+        g_selector_rotation = 0;
+        if (vrt::want_sample("reentrant") && fmt.size() > 10 && fmt.size() < 60) vrt::sample("reentrant", sfmt("shape %d (formatters that call back into the library), format \"%s\"", shape, vrt::json_escape(fmt).c_str()));
+    });
+
+    vrt::require("stack.cases", 3000);
+    vrt::require("stack.calls_with_format_string_and_arguments_in_the_caller's_frame", 20000);
+    vrt::require("stack.piece_is_a_text_argument", 1000);
+    vrt::require("stack.piece_is_a_literal_run", 400);
+    vrt::require("stack.piece_is_the_rendering_of_a_number", 300);
+    vrt::require("stack.lowest_array_less_than_4096_bytes_above_the_call", 15000);
+    vrt::require("stack.format_string_less_than_4096_bytes_above_the_call", 8000);
+    vrt::require("stack.output_crosses_256_bytes_in_one_append", 1000);
+    vrt::require("stack.output_crosses_512_bytes_in_one_append", 200);
+    vrt::require("stack.output_crosses_8192_bytes_in_one_append", 200);
+    vrt::phase("stack", vrt::tier_count(4000, 200000), [&](uint64_t i, Rng &r) {
+        PlacementScope ps;
+        g_sinks_sampled = false;
+        g_selector_rotation = static_cast<int>(i % 4);
+        Values v;
+        int shape = 0;
+        ScaleFmt sf;
+        stack_case(i, r, v, shape, sf, placement(), false);
+        S fmt = sf.text();
+        if (r.chance(1, 4)) mutate_format(r, fmt);
+        else if (r.chance(1, 4) && !fmt.empty()) fmt.resize(fmt.size() - 1 - r.below(std::min<size_t>(fmt.size(), 6)));
+        format_case(fmt, shape, v);
+        if (r.chance(1, 8)) {
+            Values v2;
+            ScaleFmt sf2;
+            reentrant_case(r, v2, shape, sf2);
+            format_case(sf2.text(), shape, v2);
+        }
+        g_selector_rotation = 0;
+    });
+
+    vrt::require("same_storage.cases", 600);
+    vrt::require("same_storage.contents", 2500);
+    vrt::require("same_storage.format_string_rewritten_in_place", 2500);
+    vrt::require("same_storage.argument_buffers_rewritten_in_place", 5000);
+    vrt::require("same_storage.ST::string_successors_of_the_same_size", 1000);
+    vrt::require("same_storage.ST::string_heap_block_at_the_address_of_its_predecessor", 500);
+    vrt::require("same_storage.malformed_content_between_two_others", 1000);
+    vrt::phase("same_storage", vrt::tier_count(800, 24000), [&](uint64_t i, Rng &r) {
+        PlacementScope ps;
+        g_sinks_sampled = false;
+        static const size_t LS[] = {33, 40, 64, 100, 256, 300, 1024, 1500, 4096, 5000, 16387};
+        static const size_t AS[] = {20, 40, 64, 100, 256, 300, 1024, 1500, 4096, 5000};
+        const size_t L = LS[i % 11], A = AS[(i / 11) % 10], K = 3 + r.below(4);
+        placement().mode = 3;
+        placement().align = r.below(16);
+        const size_t arg_align = r.below(16);
+        CallerTexts ct;
+        Values v;
+        random_values(r, v);
+        static const int shapes[] = {5, 7, 45, 13, 2, 32, 200, 202, 8, 14, 3, 15, 46, 34, 42, 36, EXTRA_BASE + 3, EXTRA_BASE + 5, EXTRA_BASE + 6};
+        const int shape = r.pick(shapes);
+        const size_t nargs = shape == EXTRA_BASE + 3 ? 2 : shape == EXTRA_BASE + 5 ? 4 : shape == EXTRA_BASE + 6 ? 5 : [&] { std::vector<Arg> args; call_shape(shape, v, "", &args, [](const char *, auto &&...) {}); return args.size(); }();
+        std::vector<ScaleFmt> fmts;
+        std::vector<S> texts;
+        same_storage_formats(r, nargs, L, K, false, fmts);
+        same_storage_texts(r, A, K, texts);
+        for (size_t k = 0; k < K; ++k) {
+            g_selector_rotation = static_cast<int>((i + k) % 4);
+            ST::string prev(std::move(v.st));
+            ct.set(v, texts[k], arg_align);
+            succeed_st(v, prev, texts[k]);
+            const S fmt = fmts[k].text();
+            format_case(fmt, shape, v);
+            vrt::count("same_storage.contents");
+            if (r.chance(2, 3)) {       // ... and a malformed / different one of the same length from the same buffer: bytes in the middle replaced
+                S bad = fmt;
+                for (size_t n = 1 + r.below(3); n-- > 0;) bad[16 + r.below(L - 32)] = r.pick(INJ);
+                for (auto &c : bad) if (c == '\0') c = '0';
+                format_case(bad, shape, v);
+                vrt::count("same_storage.malformed_content_between_two_others");
+            }
+        }
+        g_selector_rotation = 0;
+        vrt::count("same_storage.cases");
+        if (vrt::want_sample("same_storage") && L == 64)
+            vrt::sample("same_storage", sfmt("shape %d: %zu format strings of %zu bytes in one buffer (\"%s\", \"%s\", ...) and edited copies of them, text arguments of %zu bytes rewritten in place", shape, K, L,
+                                             vrt::json_escape(fmts[0].text()).c_str(), vrt::json_escape(fmts[1].text()).c_str(), A));
+    });
+
+    vrt::require("soak.cases_with_70000_or_more_consecutive_format_calls", 16);
+    vrt::require("soak.runs_of_64_or_more_equal_calls_then_an_interesting_one", 300);
+    vrt::phase("soak", vrt::thorough() ? 64 : 16, [&](uint64_t, Rng &r) {
+        PlacementScope ps;
+        g_sinks_sampled = true;                 // (the sinks get every third format string here)
+        const size_t M = 40;
+        std::vector<std::unique_ptr<SoakEntry>> pool, boring;
+        for (size_t k = 0; k < M; ++k) pool.push_back(soak_entry(r, k % 4 == 3 ? 2 : 1));
+        for (size_t k = 0; k < 6; ++k) boring.push_back(soak_entry(r, 0));
+        uint64_t cases = 0, runs = 0;
+        while (cases * 4 < 72000) {             // four ST::format calls per format_case
+            g_selector_rotation = static_cast<int>(cases % 4);
+            if (r.chance(1, 150)) {
+                SoakEntry &b = *boring[r.below(boring.size())];
+                std::unique_ptr<SoakEntry> next = soak_entry(r, 2);
+                const size_t n = 64 + r.below(237);
+                for (size_t k = 0; k < n; ++k) soak_execute(b);
+                soak_execute(*next);
+                cases += n + 1;
+                ++runs;
+                if (r.chance(1, 4)) boring[r.below(boring.size())] = soak_entry(r, 0);
+                pool[r.below(M)] = std::move(next);
+            } else {
+                soak_execute(*pool[r.below(M)]);
+                ++cases;
+                if (r.chance(1, 25)) pool[r.below(M)] = soak_entry(r, r.chance(1, 3) ? 2 : 1);
+            }
+        }
+        g_selector_rotation = 0;
+        g_sinks_sampled = false;
+        vrt::count("soak.format_calls", cases * 4);
+        vrt::count("soak.runs_of_64_or_more_equal_calls_then_an_interesting_one", runs);
+        if (cases * 4 >= 70000) vrt::count("soak.cases_with_70000_or_more_consecutive_format_calls");
+        if (vrt::want_sample("soak")) vrt::sample("soak", sfmt("%llu consecutive ST::format calls (%llu format strings x 4 validation selectors, every third also through the five sinks) of mixed shapes in one case, "
+                                                               "%llu runs of 64..300 equal plain calls each followed by an interesting one", static_cast<unsigned long long>(cases * 4), static_cast<unsigned long long>(cases),
+                                                               static_cast<unsigned long long>(runs)));
+    });
+
+    vrt::require("alignment.format_strings", 1000);
+    vrt::require("alignment.calls_with_a_format_string_behind_foreign_bytes", 300000);
+    const unsigned usual_budget = vrt::case_cpu_budget();
+    vrt::case_cpu_budget() = 8;                 // (small cases: a parser that runs away from such a string is stopped early)
+    vrt::phase("alignment", vrt::tier_count(1020, 40800), [&](uint64_t i, Rng &r) {
+        PlacementScope ps;
+        g_sinks_sampled = true;
+        Values v;
+        random_values(r, v);
+        static const int shapes[] = {1, 2, 3, 5, 6, 7, 9, 10, 12, 47, 0, 200, EXTRA_BASE + 0, EXTRA_BASE + 6};
+        const int shape = r.pick(shapes);
+        const size_t nargs = shape == EXTRA_BASE + 0 ? 1 : shape == EXTRA_BASE + 6 ? 5 : [&] { std::vector<Arg> args; call_shape(shape, v, "", &args, [](const char *, auto &&...) {}); return args.size(); }();
+        ScaleFmt sf;
+        alignment_format(i, r, nargs, false, sf);
+        S fmt = sf.text();
+        if (r.chance(1, 4)) mutate_format(r, fmt);
+        Placement &pl = placement();
+        pl.mode = 2;
+        for (size_t a = 0; a < 16; ++a)
+            for (int q = 0; q < N_ALIGN_PREFIXES; ++q) {
+                pl.align = a;
+                pl.prefix = ALIGN_PREFIXES[q];
+                pl.fill_with_prefix = ((a + static_cast<size_t>(q) + i) % 2) != 0;
+                format_case(fmt, shape, v);
+            }
+        g_sinks_sampled = false;
+        if (vrt::want_sample("alignment") && fmt.size() < 50)
+            vrt::sample("alignment", sfmt("shape %d, format \"%s\" at every address modulo 16 with {, }, {{, }}, {} and }{ directly in front of it in the same block", shape, vrt::json_escape(fmt).c_str()));
+    });
+    vrt::case_cpu_budget() = usual_budget;
+    g_sinks_sampled = false;
+    g_selector_rotation = 0;
 }
 
 static void body()
@@ -331,18 +622,7 @@ static void body()
             for (size_t k = 0; k <= fmt.size(); ++k) format_case(fmt.substr(0, k), shape, v);
             vrt::count("cut.cases");
         } else {
-            static const char inj[] = {'{', '}', '_', '.', '&', '0', '9', '+', '-', ' ', 'x', 'c', '#', '<', '>', '\t', 'z', '\x80', '\xff', 'E', 'f', 'e', 'b', 'o', 'X', 'd'};
-            for (int rep = static_cast<int>(1 + r.below(3)); rep-- > 0;) {
-                size_t p = r.below(fmt.size() + 1);
-                switch (r.below(4)) {
-                case 0: fmt.insert(p, 1, r.pick(inj)); break;
-                case 1: if (p < fmt.size()) fmt.erase(p, 1); break;
-                case 2: if (p < fmt.size()) fmt[p] = r.pick(inj); break;
-                default: if (p < fmt.size()) fmt.insert(p, fmt.substr(p, 1 + r.below(4))); break;
-                }
-            }
-            // the terminator must stay the only NUL
-            for (auto &c : fmt) if (c == '\0') c = '0';
+            mutate_format(r, fmt);
             format_case(fmt, shape, v);
             vrt::count("mutated.cases");
         }
@@ -477,6 +757,7 @@ static void body()
             if (vrt::want_sample("scale-arguments")) vrt::sample("scale-arguments", sfmt("shape %d, format \"%s\": %s", c.shape, vrt::json_escape(c.f.text().substr(0, 80)).c_str(), c.what.c_str()));
         });
     }
+    history_phases();
     vrt::alloc::check_pairing("fmtparse");
 }
 
